@@ -104,7 +104,7 @@ def do_check(mod, args, master):
         for i in range(0, nruns, step):
             if digests[i] is None:
                 continue
-            r = mod.run_one(runner.run_seed(master, mod.ID, i), i, tier)
+            r = runner.run_isolated(mod, runner.run_seed(master, mod.ID, i), i, tier)
             resampled += 1
             if r.get("digest") != digests[i]:
                 mism += 1
@@ -136,6 +136,20 @@ def do_check(mod, args, master):
         try:
             code, out = runner.replay_in_fresh_interpreter(mod.ID, path)
             rep["replay_verified_in_fresh_interpreter"] = code == runner.EXIT_VIOLATION
+            if code != runner.EXIT_VIOLATION and hasattr(mod, "full_replay"):
+                # the violation needs what the rest of the run did before it (state
+                # inside the code under test that outlives one evaluation): fall back
+                # to a replay file that repeats the whole run
+                rep2 = mod.full_replay(v["replay"])
+                if rep2 is not None:
+                    rep2["found"] = rep.get("found")
+                    rep2["minimised"] = "the minimised replay did not reproduce on its own; this file repeats the whole run"
+                    with open(path, "w") as fh:
+                        json.dump(rep2, fh, indent=1, default=repr)
+                        fh.write("\n")
+                    code, out = runner.replay_in_fresh_interpreter(mod.ID, path)
+                    rep2["replay_verified_in_fresh_interpreter"] = code == runner.EXIT_VIOLATION
+                    rep = rep2
         except Exception as e:  # noqa: BLE001
             rep["replay_verified_in_fresh_interpreter"] = f"error: {e!r}"
         with open(path, "w") as fh:
